@@ -145,8 +145,10 @@ WordsOf(k) == [i \in 1 .. (Len(k) \div 4) |-> WordLE(k, 4 * (i - 1))]
 \* S: for (hash=<init>, i=0; i<len; ++i) hash = (hash<<4)^(hash>>28)^key[i];
 \*    return (hash ^ (hash>>10) ^ (hash>>20))   [& mask left to the caller, as in the library]
 \* (the article starts from hash=len; the start value is a parameter here, see LibStart)
-RotLoop(k, init) == FoldLeft(LAMBDA h, byte : BXor(BXor(Shl(h, 4), Shr(h, 28)), Byte(byte)), init, k)
-Rotating(k, init) == LET h == RotLoop(k, init) IN BXor(BXor(h, Shr(h, 10)), Shr(h, 20))
+RotStep(h, byte) == BXor(BXor(Shl(h, 4), Shr(h, 28)), Byte(byte))
+RotFin(h)        == BXor(BXor(h, Shr(h, 10)), Shr(h, 20))
+RotLoop(k, init) == FoldLeft(RotStep, init, k)
+Rotating(k, init) == RotFin(RotLoop(k, init))
 
 \* S: for (hash=<init>, i=0; i<len; ++i) { hash += key[i]; hash += (hash << 10); hash ^= (hash >> 6); }
 \*    hash += (hash << 3); hash ^= (hash >> 11); hash += (hash << 15);     (the article starts from hash=0)
@@ -154,17 +156,18 @@ OaatStep(h, byte) == LET h1 == Add(h, Byte(byte))
                          h2 == Add(h1, Shl(h1, 10))
                      IN BXor(h2, Shr(h2, 6))
 OaatLoop(k, init) == FoldLeft(OaatStep, init, k)
-OneAtATime(k, init) ==
-    LET h0 == OaatLoop(k, init)
-        h1 == Add(h0, Shl(h0, 3))
+OaatFin(h0) ==
+    LET h1 == Add(h0, Shl(h0, 3))
         h2 == BXor(h1, Shr(h1, 11))
     IN Add(h2, Shl(h2, 15))
+OneAtATime(k, init) == OaatFin(OaatLoop(k, init))
 
 ---------------------------------------------------------------------------------
 (* FNV *)
 FNV_PRIME == <<256, 403>>          \* 16777619 = 0x01000193 = 2^24 + 2^8 + 0x93
 FNV_BASIS == <<33052, 40389>>      \* 2166136261 = 0x811c9dc5
-Fnv1a(k, hval) == FoldLeft(LAMBDA h, byte : Mul(BXor(h, Byte(byte)), FNV_PRIME), hval, k)     \* xor, then multiply
+Fnv1aStep(h, byte) == Mul(BXor(h, Byte(byte)), FNV_PRIME)                                     \* xor, then multiply
+Fnv1a(k, hval) == FoldLeft(Fnv1aStep, hval, k)
 Fnv1(k, hval)  == FoldLeft(LAMBDA h, byte : BXor(Mul(h, FNV_PRIME), Byte(byte)), hval, k)     \* multiply, then xor
 
 ---------------------------------------------------------------------------------
@@ -239,7 +242,15 @@ OpOneAtATime  == Eval("OpOneAtATime", "one_at_a_time", Args, RefOneAtATime(key, 
 OpFnv         == Eval("OpFnv", "fnv", Args, RefFnv(key, seed))
 
 Init == key \in Keys /\ seed \in Seeds /\ fresh = TRUE
-Next == OpJenkins \/ OpJenkinsLE \/ OpJenkins32 \/ OpRotating \/ OpRotatingPublished \/ OpOneAtATime \/ OpFnv
+\* the step / finish operators themselves (the ones the folds above are made of), on 32-bit values derived from the case.
+\* hash_replay.c evaluates keys of 2^31 .. 2^32 bytes, which TLC cannot enumerate, by folding native copies of exactly these
+\* operators over the mapping; this action binds those native copies to the operators, law FoldLaw justifies the folding.
+StepArgs == <<seed, RefFnv(key, seed), RefRotating(key, seed), Byte(IF Len(key) > 0 THEN key[Len(key)] ELSE 0)>>
+OpSteps == LET a == StepArgs[1] b == StepArgs[2] c == StepArgs[3] byte == StepArgs[4][2] m == Mix(a, b, c) IN
+           Eval("OpSteps", "steps", [key |-> StepArgs, seed |-> seed],
+                <<m[1], m[2], m[3], OaatStep(b, byte), OaatFin(c), RotStep(b, byte), RotFin(c), Fnv1aStep(b, byte)>>)
+
+Next == OpJenkins \/ OpJenkinsLE \/ OpJenkins32 \/ OpRotating \/ OpRotatingPublished \/ OpOneAtATime \/ OpFnv \/ OpSteps
 Spec == Init /\ [][Next]_vars
 
 ---------------------------------------------------------------------------------
@@ -258,6 +269,18 @@ MixReversible == ~fresh => LET a == seed b == RefFnv(key, seed) c == RefRotating
 \* the GNUC shift-add form quoted by the FNV page equals the multiplication by the prime
 FnvShiftAdd == ~fresh => LET h == RefOneAtATime(key, seed)
                          IN Mul(h, FNV_PRIME) = Add(h, Add(Add(Add(Add(Shl(h, 1), Shl(h, 4)), Shl(h, 7)), Shl(h, 8)), Shl(h, 24)))
+\* compositionality: every reference is a left fold of its step operator, so the state after k1 \o k2 is the state after k2
+\* started from the state after k1 (for lookup2: k1 a whole number of 12-byte blocks).  This is what allows a key of any
+\* length to be evaluated piecewise from the step operators.
+FoldLaw == ~fresh =>
+    LET n == Len(key) m == n \div 2 m12 == (m \div 12) * 12
+        k1 == SubSeq(key, 1, m) k2 == SubSeq(key, m + 1, n)
+        j1 == SubSeq(key, 1, m12) j2 == SubSeq(key, m12 + 1, n)
+        st0 == <<LIB_RANDOM, LIB_RANDOM, seed>>
+    IN /\ OaatLoop(key, seed) = OaatLoop(k2, OaatLoop(k1, seed))
+       /\ RotLoop(key, seed) = RotLoop(k2, RotLoop(k1, seed))
+       /\ Fnv1a(key, seed) = Fnv1a(k2, Fnv1a(k1, seed))
+       /\ L2Blocks(key, "bytes", st0) = L2Blocks(j2, "bytes", L2Blocks(j1, "bytes", st0))
 \* every reference value is a 32-bit value
 RangeOK == ~fresh => /\ IsU32(RefJenkins(key, seed)) /\ IsU32(RefRotating(key, seed))
                      /\ IsU32(RefOneAtATime(key, seed)) /\ IsU32(RefFnv(key, seed))
